@@ -54,8 +54,10 @@ theorem C07_needs_enableRecover :
     ∃ e ∈ entries, (runEntry ⟨false, false, false⟩ noMis e true).panicking = true := by decide
 
 /-- The deferred `rec.Complete(p.Types.Scope())` of NewPackage is registered BEFORE the recover, so
-it runs AFTER it and outside its protection: if it panics (p is nil when gogen.NewPackage itself
-panicked) the panic leaves NewPackage even with `enableRecover`.  Model witness. -/
+it runs AFTER it and outside its protection: if it panics, the panic leaves NewPackage even with
+`enableRecover`.  Model witness; it was replayed on the real code (importer that cannot provide
+"fmt" + a Recorder: p was nil) and that case is repaired by commit 6fb64d2 (`if p != nil`); any
+other panic inside Recorder.Complete would still escape, hence the hypothesis `noMis`. -/
 theorem C07_recorder_defer_unprotected :
     ∃ e ∈ entries, e.name = "NewPackage" ∧
       (runEntry ⟨true, true, false⟩ (fun i => i == 0) e true).panicking = true := by decide
